@@ -287,6 +287,15 @@ def stepSg (st : DState) (cmd : String) (args : List String) : DState × String 
             " ".intercalate (g.gridLen.map toString))
       | none => (st, "bad-op")
   | "sg.stored", [] => (st, ";".intercalate ((sortBy keyLt st.sg.stored).map showKey))
+  -- sg.rebase e1 e2 .. | n1 n2 ..   → per-index local error positions, "|"-separated
+  | "sg.rebase", toks =>
+      match splitBar toks with
+      | [es, ns] =>
+          match es.mapM String.toNat?, ns.mapM String.toNat? with
+          | some errs, some sizes =>
+              (st, " | ".intercalate ((rebaseErrors 0 errs sizes).map fun l => " ".intercalate (l.map toString)))
+          | _, _ => (st, "bad-op")
+      | _ => (st, "bad-op")
   | _, _ => (st, "bad-op")
 
 /-- component with polynomial outputs over its inputs (in the order of `ins`) -/
